@@ -646,6 +646,9 @@ func (r *Request) executeHandler() {
 		if r.method == "new" {
 			if hs.New != nil {
 				hs.New(r)
+				if !r.replied {
+					r.reply(responseMissingResponse)
+				}
 				return
 			}
 		}
